@@ -103,6 +103,23 @@ def run(prop, tier, seed, workdir, t0, replay):
                 witness = wf(prop, [f for _, f in fresh], REPO, VERIF, workdir, seed, log)
             except Exception as e:  # witness search is best effort
                 log(f"  witness search failed to run: {e}")
+    if not fresh and undecided and P.get("witness"):
+        # the verifier could not decide (tool reject / lost anchor / resource limit).  A concrete input on which the
+        # real code disagrees with the executable twin of the contract's spec is still a demonstrated violation.
+        try:
+            from vx.stage_verus import Failure
+            witness = P["witness"](prop, [Failure("contract", s.name, u, "", "") for s, u in undecided], REPO, VERIF, workdir, seed, log)
+        except Exception as e:
+            log(f"  witness search failed to run: {e}")
+            witness = None
+        if witness and witness.get("found"):
+            s0, u0 = undecided[0]
+            f = Failure("contract", f"{s0.name.split(':')[-1].split('[')[0]}/undecided-by-verifier+concrete-counterexample",
+                        "the verifier could not decide this tree (" + u0[:160] + "), but the real code disagrees with the contract's spec on a concrete input",
+                        "twin", witness.get("detail") or "")
+            s0.failures.append(f)
+            fresh.append((s0, f))
+            failures.append((s0, f))
     replay_path = None
     if fresh:
         os.makedirs(os.path.join(VERIF, "replay"), exist_ok=True)
